@@ -251,7 +251,7 @@ func (e *Engine) noteUnknown(q string) {
 func (e *Engine) okGlobal(g *ssa.Global) bool {
 	// globals of uninitialised packages that are safe to read as zero values
 	switch g.String() {
-	case "encoding/base64.StdEncoding", "encoding/base64.URLEncoding", "encoding/base64.RawStdEncoding", "encoding/base64.RawURLEncoding", "io.Discard", "golang.org/x/oauth2.HTTPClient", "log/slog.DiscardHandler":
+	case "encoding/base64.StdEncoding", "encoding/base64.URLEncoding", "encoding/base64.RawStdEncoding", "encoding/base64.RawURLEncoding", "io.Discard", "golang.org/x/oauth2.HTTPClient", "log/slog.DiscardHandler", "net/http.LocalAddrContextKey":
 		return true // only passed to the base64 models, never dereferenced
 	}
 	return false
